@@ -1,0 +1,55 @@
+/*
+ * SPDX-License-Identifier: BSD-3-Clause
+ *
+ * Observation points for external verification harnesses. Without
+ * -DXCM_VERIF every macro in this file expands to nothing and no
+ * symbol is defined; the library is then identical to one built
+ * without this header.
+ *
+ * With -DXCM_VERIF, a harness linked with the library's objects may
+ * install callbacks. Both pointers are NULL by default. They are
+ * read without synchronization: install them before any XCM
+ * function is called from a second thread.
+ *
+ * XCM_VERIF_EV(ev, a, b, c) reports a state change. For process-wide
+ * state protected by a mutex, it is placed after the state change,
+ * while the mutex is still held.
+ *
+ * XCM_VERIF_YIELD(site) is placed at the beginning of such a critical
+ * section (mutex held); a harness may use it to make the section
+ * wider (e.g., by calling sched_yield()).
+ */
+
+#ifndef VERIF_H
+#define VERIF_H
+
+#ifdef XCM_VERIF
+
+extern void (*xcm_verif_cb)(const char *ev, long a, long b, long c);
+extern void (*xcm_verif_yield_cb)(const char *site);
+
+#define XCM_VERIF_EV(ev, a, b, c)					\
+    do {								\
+	if (xcm_verif_cb != NULL)					\
+	    xcm_verif_cb(ev, (long)(a), (long)(b), (long)(c));		\
+    } while (0)
+
+#define XCM_VERIF_YIELD(site)			\
+    do {					\
+	if (xcm_verif_yield_cb != NULL)		\
+	    xcm_verif_yield_cb(site);		\
+    } while (0)
+
+/* the first four bytes of a hash, as a non-negative integer */
+#define XCM_VERIF_H32(h)						\
+    ((long)(((unsigned long)(h)[0] << 23) | ((unsigned long)(h)[1] << 15) | \
+	    ((unsigned long)(h)[2] << 7) | ((unsigned long)(h)[3] >> 1)))
+
+#else
+
+#define XCM_VERIF_EV(ev, a, b, c) do { } while (0)
+#define XCM_VERIF_YIELD(site) do { } while (0)
+
+#endif
+
+#endif
